@@ -456,17 +456,45 @@ def fp_obs(obs):
 
 
 # ------------------------------------------------------------------------- queries
-def run_query(q, paths, deep=False):
+class Readers:
+    """Cache of open pyrex.File readers keyed by (path, slice_range): a reader holds no
+    iteration state of its own, so sharing one between queries does not change any result."""
+    def __init__(self):
+        self.open = {}
+
+    def get(self, path, k):
+        pyrex = _pyrex()
+        key = (path, k)
+        if key not in self.open:
+            kw = {} if k is None else {"slice_range": k}
+            f = pyrex.File(path, "r", **kw)
+            f.open()
+            self.open[key] = f
+        return self.open[key]
+
+    def close(self):
+        for f in self.open.values():
+            try:
+                f.close()
+            except Exception:
+                pass
+        self.open = {}
+
+
+def run_query(q, paths, deep=False, readers=None):
     """Run one reader query on the implementation.  Returns ["ok", [fingerprints...]] or
-    ["err", ExcName] (for gen: ["ok", [[tags...], count] ...] then the stop marker)."""
+    ["err", ExcName] (for gen: ["ok", [[tags...], count] ... "stop"])."""
     pyrex = _pyrex()
     kind = q[0]
+    own = readers is None
+    readers = readers or Readers()
     try:
         if kind == "gen":
             _, k, fids = q
-            g = pyrex.generation.FileGenerator([paths[i] for i in fids], slice_range=k)
+            g = None
             res = []
             try:
+                g = pyrex.generation.FileGenerator([paths[i] for i in fids], slice_range=k)
                 for _ in range(10000):
                     try:
                         ev = g.create_event()
@@ -493,41 +521,50 @@ def run_query(q, paths, deep=False):
                 except Exception:
                     pass
             return ["ok", res]
-        fid = q[1]
-        k = q[2]
-        kw = {} if k is None else {"slice_range": k}
-        with pyrex.File(paths[fid], "r", **kw) as f:
-            if kind == "len":
-                return ["ok", [len(f)]]
-            if kind == "iter":
-                return ["ok", [fp_obs(observe_event(ev, deep=deep)) for ev in f]]
-            if kind == "int":
-                return ["ok", [fp_obs(observe_event(f[q[3]], deep=deep))]]
-            if kind == "slice":
-                a, b, s = q[3], q[4], q[5]
-                return ["ok", [fp_obs(observe_event(ev, deep=deep)) for ev in f[slice(a, b, s)]]]
+        f = readers.get(paths[q[1]], q[2])
+        if kind == "len":
+            return ["ok", [len(f)]]
+        if kind == "iter":
+            return ["ok", [fp_obs(observe_event(ev, deep=deep)) for ev in f]]
+        if kind == "int":
+            return ["ok", [fp_obs(observe_event(f[q[3]], deep=deep))]]
+        if kind == "slice":
+            a, b, s = q[3], q[4], q[5]
+            return ["ok", [fp_obs(observe_event(ev, deep=deep)) for ev in f[slice(a, b, s)]]]
         raise ValueError("unknown query %r" % (q,))
     except Exception as e:
         return ["err", type(e).__name__]
+    finally:
+        if own:
+            readers.close()
 
 
 # ------------------------------------------------------------------- implementation
-def run_impl(case, scratch, tag="c"):
-    """Everything the correspondence compares, from the implementation."""
+def run_impl(case, scratch, tag="c", query_gen=None):
+    """Everything the correspondence compares, from the implementation.  query_gen(case, recs)
+    may fill case["queries"] once the files are written (their lengths are then known)."""
     d = os.path.join(scratch, "files_%s" % tag)
     os.makedirs(d, exist_ok=True)
     paths, files = [], []
-    for i, fc in enumerate(case["files"]):
-        path = os.path.join(d, "f%d.h5" % i)
-        paths.append(path)
-        w = write_file(fc, path)
-        rec = {"ctor": w["ctor"], "outcomes": w["outcomes"], "counters": w["counters"]}
-        if w["ctor"] is None:
-            rec.update(raw_view(path))
-            rec["events"] = read_all(path)
-        files.append(rec)
-    queries = [run_query(q, paths) for q in case.get("queries", [])]
-    shutil.rmtree(d, ignore_errors=True)
+    try:
+        for i, fc in enumerate(case["files"]):
+            path = os.path.join(d, "f%d.h5" % i)
+            paths.append(path)
+            w = write_file(fc, path)
+            rec = {"ctor": w["ctor"], "outcomes": w["outcomes"], "counters": w["counters"]}
+            if w["ctor"] is None:
+                rec.update(raw_view(path))
+                rec["events"] = read_all(path)
+            files.append(rec)
+        if query_gen is not None:
+            case["queries"] = query_gen(case, files)
+        readers = Readers()
+        try:
+            queries = [run_query(q, paths, readers=readers) for q in case.get("queries", [])]
+        finally:
+            readers.close()
+    finally:
+        shutil.rmtree(d, ignore_errors=True)
     return {"files": files, "queries": queries}
 
 
@@ -537,8 +574,6 @@ def read_all(path):
     try:
         with pyrex.File(path, "r") as f:
             n = len(f)
-            if n == 0:
-                return ["ok", 0, []]
             evs = [observe_event(ev, deep=True) for ev in f]
             return ["ok", n, evs]
     except Exception as e:
@@ -806,3 +841,626 @@ def diff(a, b, path=""):
     if a != b:
         return "%s: %r (impl) vs %r (model)" % (path, a, b)
     return ""
+
+
+# ======================================================================= generators
+REQ_VALUES = [False, True, [], ["waveforms"], ["rays", "noise"], ["triggers"], ["antenna_triggers"],
+              ["triggers", "antenna_triggers"], ["waveforms", "rays", "noise"], "noise", [""],
+              ["particles"], ["particles", "triggers", "antenna_triggers", "waveforms", "rays", "noise"]]
+
+
+def opts_from_bits(bits, req):
+    names = ["particles", "triggers", "antenna_triggers", "rays", "noise", "waveforms"]
+    o = {"write_" + n: bool(bits >> i & 1) for i, n in enumerate(names)}
+    o["require_trigger"] = req
+    return o
+
+
+def gen_opts(rng, k=None):
+    """Writer options: the 2^6 write_* combinations are swept by index k (when given);
+    require_trigger is drawn from bool / list forms.  Configurations that record particles
+    for every event (the property's domain) get most of the weight."""
+    bits = rng.randrange(64) if k is None else k % 64
+    if rng.random() < 0.7:
+        bits |= 1
+    if (bits & 4) and not (bits & 2) and rng.random() < 0.8:
+        bits |= 2          # write_antenna_triggers without write_triggers is rejected by the constructor
+    r = rng.random()
+    if r < 0.25:
+        req = False
+    elif r < 0.5:
+        req = True
+    elif r < 0.9:
+        req = rng.choice(REQ_VALUES[2:11])
+    elif r < 0.95:
+        req = rng.choice(REQ_VALUES[11:])
+    else:
+        req = sorted(rng.sample(OKEYS[1:], rng.randrange(0, 5)))
+    return opts_from_bits(bits, req)
+
+
+def records_particles(o):
+    r = o["require_trigger"]
+    lst = [] if isinstance(r, bool) else ([r] if isinstance(r, str) else r)
+    return bool(o["write_particles"]) and "particles" not in lst and not (o["write_antenna_triggers"] and not o["write_triggers"])
+
+
+class Tags:
+    def __init__(self, rng):
+        self.rng, self.n = rng, 0
+
+    def next(self):
+        self.n += self.rng.choice([1, 1, 2])
+        return self.n
+
+
+def gen_add(rng, det, tags, p_bad=0.25, maxp=3, maxw=3):
+    """One add() call.  With probability p_bad it is malformed in one of the ways that make
+    HDF5Writer.add raise at some stage."""
+    nparts = rng.choice([1, 1, 1, 2, 2, 3, maxp]) if rng.random() > 0.03 else 0
+    a = {"parts": [tags.next() for _ in range(nparts)]}
+    a["waves"] = [[tags.next() for _ in range(rng.choice([0, 1, 1, 2, maxw]))] for _ in range(det)]
+    a["rays"] = [[tags.next() for _ in range(rng.choice([0, 1, 1, 2, maxw]))] for _ in range(det)]
+    a["pols"] = "ok"
+    a["noise"] = [tags.next() if rng.random() < 0.8 else 0 for _ in range(det)]
+    a["thrown"] = rng.choice([1, 1, 2, 3])
+    a["fault"] = None
+    mw = max(len(w) for w in a["waves"])
+    r = rng.random()
+    if r < 0.45:
+        a["trig"] = rng.random() < 0.6
+    else:
+        x = []
+        for name in rng.sample(CUSTOM, rng.choice([0, 1, 1, 2, 3])):
+            if rng.random() < 0.5:
+                x.append([name, rng.random() < 0.5])
+            else:
+                x.append([name, [rng.random() < 0.5 for _ in range(mw + rng.choice([0, 0, 1]))]])
+        a["trig"] = {"g": rng.random() < 0.6, "x": x}
+    if rng.random() < p_bad:
+        kind = rng.choice(["trig_none", "trig_bad", "no_global", "short_list", "rays_none", "rays_len",
+                           "pols_none", "pols_outer", "pols_inner", "pols_vec", "meta", "noise", "wave"])
+        if kind == "trig_none":
+            a["trig"] = None
+        elif kind == "trig_bad":
+            a["trig"] = "bad"
+        elif kind == "no_global":
+            a["trig"] = {"g": None, "x": [[rng.choice(CUSTOM), True]]}
+        elif kind == "short_list":
+            if mw:
+                g = a["trig"]["g"] if isinstance(a["trig"], dict) else bool(a["trig"])
+                a["trig"] = {"g": g, "x": [["k1", True], ["k0", [True] * rng.randrange(mw)]]}
+        elif kind == "rays_none":
+            a["rays"] = None
+        elif kind == "rays_len":
+            a["rays"] = a["rays"] + [[tags.next()]] if rng.random() < 0.5 else a["rays"][:-1]
+        elif kind == "pols_none":
+            a["pols"] = "none"
+        elif kind == "pols_outer":
+            a["pols"] = "outer"
+        elif kind == "pols_inner":
+            a["pols"] = ["inner", rng.randrange(det)]
+        elif kind == "pols_vec":
+            cand = [(i, j) for i, l in enumerate(a["rays"]) for j in range(len(l))]
+            if cand:
+                i, j = rng.choice(cand)
+                a["pols"] = ["vec", i, j]
+        else:
+            a["fault"] = kind
+    return a
+
+
+def gen_filecase(rng, nadds, opts=None, det=None, p_bad=0.25, nsessions=None):
+    det = det or rng.choice([1, 2, 2, 3, 4])
+    opts = opts or gen_opts(rng)
+    tags = Tags(rng)
+    adds = [gen_add(rng, det, tags, p_bad=p_bad) for _ in range(nadds)]
+    ns = nsessions or rng.choice([1, 1, 2, 3])
+    cuts = sorted(rng.randrange(0, nadds + 1) for _ in range(ns - 1))
+    sessions, prev = [], 0
+    for c in cuts + [nadds]:
+        sessions.append(adds[prev:c])
+        prev = c
+    return {"det": det, "opts": opts, "sessions": sessions}
+
+
+def all_adds(fc):
+    return [a for s in fc["sessions"] for a in s]
+
+
+def spellings(rng, a, b, n, every=False):
+    """Ways of writing the in-range bounds 0 <= a < b <= n of a slice."""
+    sa = [a, a - n] + ([None] if a == 0 else [])
+    sb = [b] + ([b - n] if b < n else [None])
+    allsp = [(x, y) for x in sa for y in sb]
+    return allsp if every else [rng.choice(allsp)]
+
+
+def gen_queries(rng, fid, n, thorough=False, max_slices=None):
+    """Access paths of one file with n events: every slice_range 1..n+1 (and None), every index
+    -n..n-1 (plus the two just outside), every slice 0<=a<b<=n with step 1..4 in positive /
+    negative / omitted spellings, with the reader opened at various slice_range values."""
+    qs = [["len", fid, None], ["iter", fid, None]]
+    if n == 0:
+        return qs + [["iter", fid, 1], ["int", fid, None, 0], ["int", fid, None, -1], ["slice", fid, None, None, None, None]]
+    for k in range(1, n + 2):
+        qs.append(["iter", fid, k])
+    for i in range(-n - 1, n + 1):
+        qs.append(["int", fid, rng.choice([None, 1, 2]), i])
+    sl = []
+    for a in range(n):
+        for b in range(a + 1, n + 1):
+            for s in [None, 1, 2, 3, 4]:
+                for (x, y) in spellings(rng, a, b, n, every=thorough):
+                    ks = [None] + list(range(1, n + 2))
+                    for k in (ks if thorough and n <= 5 else [rng.choice(ks)]):
+                        sl.append(["slice", fid, k, x, y, s])
+    if max_slices and len(sl) > max_slices:
+        sl = rng.sample(sl, max_slices)
+    # a few slices outside the property's domain (empty / out of range): both sides must agree anyway
+    sl += [["slice", fid, None, n, None, None], ["slice", fid, 1, 0, n + 1, 1], ["slice", fid, None, 1, 1, 1] if n > 1 else ["slice", fid, None, 0, 0, 1],
+           ["slice", fid, 2, 0, n, 0]]
+    return qs + sl
+
+
+# =================================================================== python-side oracle
+def _trig_only(o):
+    r = o["require_trigger"]
+    if isinstance(r, bool):
+        return {k: (r and k in ("waveforms", "rays", "noise")) for k in OKEYS}
+    lst = [r] if isinstance(r, str) else r
+    return {k: k in lst for k in OKEYS}
+
+
+def _trig_val(t):
+    if isinstance(t, bool):
+        return t
+    if isinstance(t, dict):
+        return bool(t.get("g"))
+    return False
+
+
+def expected_event(o, a, det):
+    """What the property says event must read back as, from the inputs alone (an independent
+    restatement: options + the data handed to add)."""
+    to = _trig_only(o)
+    tv = _trig_val(a["trig"])
+    rec = {k: bool(o["write_" + k]) and (not to[k] or tv) for k in OKEYS}
+    waves = a["waves"]
+    if a.get("fault") == "wave" and waves:
+        # the detector holds one more (malformed) waveform object on its last antenna; an add that
+        # gets accepted never touched it, but it counts towards the number of waveform rows
+        waves = waves[:-1] + [waves[-1] + [0]]
+    mw = max([len(w) for w in waves] + [0])
+    out = {}
+    out["P"] = [[t] for t in a["parts"]] if rec["particles"] else []
+    out["T"] = [[int(tv)]] if rec["triggers"] else []
+    extra = a["trig"].get("x", []) if isinstance(a["trig"], dict) else []
+    if rec["triggers"] and (rec["antenna_triggers"] or extra):
+        rows = []
+        for j in range(mw):
+            m = 0
+            if rec["antenna_triggers"]:
+                for i, w in enumerate(waves):
+                    if j < len(w) and w[j] % 2 == 1:
+                        m |= 1 << i
+            for name, val in extra:
+                if (val if isinstance(val, bool) else val[j]):
+                    m |= 1 << name_bit(name)
+            rows.append([m])
+        out["M"] = rows
+    else:
+        out["M"] = []
+    rays = a["rays"] or []
+    mr = max([len(r) for r in rays] + [0])
+    out["R"] = [[(r[j] if j < len(r) else 0) for r in rays] for j in range(mr)] if rec["rays"] else []
+    out["N"] = [list(a["noise"])] if rec["noise"] else []
+    out["W"] = [[(w[j] if j < len(w) else 0) for w in waves] for j in range(mw)] if rec["waveforms"] else []
+    return [out[t] for t in TABLES]
+
+
+def _nothing(x):
+    return x == "NA" or x == []
+
+
+def oracle_c11(fc, rec):
+    """Judge the C11 statement on one written file.  Returns '' or a description."""
+    if rec["ctor"] is not None or not records_particles(fc["opts"]):
+        return ""
+    adds = all_adds(fc)
+    acc = [a for a, o in zip(adds, rec["outcomes"]) if o == "ok"]
+    nrows = rec["nrows"]
+    for i, row in enumerate(rec["index"]):
+        for t, (s, l) in zip(TABLES, row):
+            if s < 0 or l < 0 or s + l > nrows[TABLES.index(t)]:
+                return "index row %d table %s = (%d,%d) addresses rows outside the dataset of %d rows" % (i, t, s, l, nrows[TABLES.index(t)])
+    if len(rec["index"]) != len(acc):
+        return "file holds %d events but %d adds were accepted" % (len(rec["index"]), len(acc))
+    evs = rec["events"]
+    if not acc:
+        return ""
+    if evs[0] != "ok":
+        return "reading the file back raises %s" % evs[1]
+    if evs[1] != len(acc) or len(evs[2]) != len(acc):
+        return "reading yields %d events (len %d) but %d adds were accepted" % (len(evs[2]), evs[1], len(acc))
+    for i, (a, got) in enumerate(zip(acc, evs[2])):
+        want = expected_event(fc["opts"], a, fc["det"])
+        for t, g, w in zip(TABLES, got, want):
+            if _nothing(g) and w == []:
+                continue
+            if g != w:
+                return "event %d table %s reads %s but the add recorded %s" % (i, t, json.dumps(g)[:200], json.dumps(w)[:200])
+    if rec["thrown"] != sum(a.get("thrown", 1) for a in acc):
+        return "total_thrown %d != sum over accepted adds %d" % (rec["thrown"], sum(a.get("thrown", 1) for a in acc))
+    return ""
+
+
+def base_fps(rec):
+    evs = rec.get("events")
+    if not evs or evs[0] != "ok":
+        return None
+    return [fp_obs(e) for e in evs[2]]
+
+
+def oracle_query(q, got, recs, fcs):
+    """Judge the C12 statement for one query result against the sequential pass."""
+    kind = q[0]
+    if kind == "gen":
+        want = []
+        total = 0
+        for fid in q[2]:
+            if recs[fid]["ctor"] is not None or not records_particles(fcs[fid]["opts"]):
+                return ""
+            evs = recs[fid]["events"]
+            if evs[0] != "ok" or evs[1] == 0:
+                return ""
+            for e in evs[2]:
+                if not isinstance(e[0], list):
+                    return ""
+                want.append([r[0] for r in e[0]])
+            total += recs[fid]["thrown"]
+        if got[0] != "ok":
+            return "FileGenerator raises %s" % got[1]
+        items = got[1]
+        if items[-1:] != ["stop"]:
+            return "FileGenerator does not stop after the last stored event"
+        tags = [it[0] for it in items[:-1]]
+        if tags != want:
+            return "FileGenerator replays %s but the files hold %s" % (json.dumps(tags)[:200], json.dumps(want)[:200])
+        counts = [it[1] for it in items[:-1]]
+        if any(b < a for a, b in zip(counts, counts[1:])) or (counts and counts[-1] != total):
+            return "FileGenerator.count sequence %s does not end at the files' total_thrown %d" % (counts[-6:], total)
+        return ""
+    fid = q[1]
+    if recs[fid]["ctor"] is not None or not records_particles(fcs[fid]["opts"]):
+        return ""
+    base = base_fps(recs[fid])
+    if base is None:
+        return ""
+    n = len(base)
+    if kind == "len":
+        return "" if got == ["ok", [n]] else "len(file) gives %s, sequential pass has %d events" % (got, n)
+    want = None
+    if kind == "iter" and n >= 1 and (q[2] is None or q[2] >= 1):
+        want = base
+    elif kind == "int" and -n <= q[3] < n:
+        want = [base[q[3] % n]]
+    elif kind == "slice":
+        a, b, s = q[3], q[4], q[5]
+        aa = 0 if a is None else (a + n if a < 0 else a)
+        bb = n if b is None else (b + n if b < 0 else b)
+        ss = 1 if s is None else s
+        if 0 <= aa < bb <= n and ss >= 1 and (q[2] is None or q[2] >= 1):
+            want = [base[i] for i in range(aa, bb, ss)]
+    if want is None:
+        return ""
+    if got[0] != "ok":
+        return "%s raises %s" % (describe_query(q), got[1])
+    if got[1] != want:
+        bad = [i for i, (x, y) in enumerate(zip(got[1], want)) if x != y]
+        return "%s yields %d events, %s; the sequential pass gives %d there" % (
+            describe_query(q), len(got[1]),
+            ("position %d differs from the sequential pass" % bad[0]) if bad else "count differs", len(want))
+    return ""
+
+
+def describe_query(q):
+    if q[0] == "iter":
+        return "iteration with slice_range=%s" % q[2]
+    if q[0] == "int":
+        return "f[%d] (slice_range=%s)" % (q[3], q[2])
+    if q[0] == "slice":
+        return "f[%s:%s:%s] (slice_range=%s)" % (q[3], q[4], q[5], q[2])
+    return str(q)
+
+
+# ============================================================ evaluation of a batch of cases
+def gen_diff(impl_q, model_q):
+    """FileGenerator results: tags and stop exactly; count may be one below the exact
+    floor((k+1)*T/n) because the code evaluates (k+1)/n*T in floating point."""
+    if impl_q[0] != model_q[0]:
+        return "generator outcome %r (impl) vs %r (model)" % (impl_q, model_q)
+    if impl_q[0] == "err":
+        return "" if impl_q[1] == model_q[1] else "generator error %r (impl) vs %r (model)" % (impl_q[1], model_q[1])
+    a, b = impl_q[1], model_q[1]
+    if len(a) != len(b):
+        return "generator yields %d items (impl) vs %d (model)" % (len(a), len(b))
+    for i, (x, y) in enumerate(zip(a, b)):
+        if x == "stop" or y == "stop":
+            if x != y:
+                return "generator item %d: %r vs %r" % (i, x, y)
+            continue
+        if x[0] != y[0]:
+            return "generator event %d particles %r (impl) vs %r (model)" % (i, x[0], y[0])
+        if x[1] not in (y[1], y[1] - 1):
+            return "generator count after event %d: %r (impl) vs %r (model)" % (i, x[1], y[1])
+    return ""
+
+
+def compare(case, impl, model_str):
+    """'' when implementation and model agree on the whole case, else the first difference."""
+    try:
+        cm_files, cm_q = canon_model(model_str)
+    except Exception as e:
+        return "cannot parse model output: %r: %s" % (e, model_str[:300])
+    ci_files, ci_q = canon_impl(impl)
+    d = diff(ci_files, cm_files, "files")
+    if d:
+        return d
+    if len(ci_q) != len(cm_q):
+        return "query count differs"
+    for i, (q, x, y) in enumerate(zip(case.get("queries", []), ci_q, cm_q)):
+        if q[0] == "gen":
+            d = gen_diff(x, y)
+        else:
+            d = diff(x, y, "query[%d]=%s" % (i, describe_query(q)))
+        if d:
+            return d
+    return ""
+
+
+def eval_models(ctx, cases, chunk=6):
+    return ctx.coq_eval_exprs(COQ_IMPORTS, [model_expr(c) for c in cases], chunk=chunk)
+
+
+# ================================================================== shared check driver
+import ast
+import hashlib
+
+PINNED = {"pyrex/io.py": ["HDF5Writer.add", "HDF5Writer._rollback", "HDF5Writer._preset_all_indices",
+                          "HDF5Writer._write_indices", "HDF5Writer._write_particles", "HDF5Writer._write_trigger",
+                          "HDF5Writer._check_trigger", "HDF5Writer._write_ray_data", "HDF5Writer._write_noise_data",
+                          "HDF5Writer._write_waveforms", "HDF5Writer.open", "HDF5Writer.__init__",
+                          "EventIterator.__init__", "EventIterator.__next__", "EventIterator._load_data",
+                          "EventIterator._get_event_data", "HDF5Reader.__getitem__", "HDF5Reader.__iter__",
+                          "HDF5Reader.__len__", "HDF5Reader.open"],
+          "pyrex/generation.py": ["FileGenerator.__init__", "FileGenerator._load_events", "FileGenerator._next_file",
+                                  "FileGenerator.create_event", "FileGenerator.count"]}
+
+
+def ast_pins(repo):
+    """Hash of the normalised AST (docstrings removed) of every hand-modelled function."""
+    pins = {}
+    for rel, names in PINNED.items():
+        try:
+            tree = ast.parse(open(os.path.join(repo, rel)).read())
+        except Exception as e:
+            pins[rel] = "unparsable: %r" % e
+            continue
+        for cls in [n for n in tree.body if isinstance(n, ast.ClassDef)]:
+            for fn in [n for n in cls.body if isinstance(n, ast.FunctionDef)]:
+                q = "%s.%s" % (cls.name, fn.name)
+                if q not in names:
+                    continue
+                body = fn.body
+                if body and isinstance(body[0], ast.Expr) and isinstance(getattr(body[0], "value", None), ast.Constant) \
+                        and isinstance(body[0].value.value, str):
+                    body = body[1:]
+                txt = ast.dump(ast.Module(body=body, type_ignores=[]), annotate_fields=False) + ast.dump(fn.args)
+                key = rel + ":" + q
+                pins[key] = hashlib.md5((pins.get(key, "") + txt).encode()).hexdigest()
+    return pins
+
+
+def pins_changed(repo, root):
+    cur = ast_pins(repo)
+    try:
+        ref = json.load(open(os.path.join(root, "harness", "io_pins.json")))
+    except Exception:
+        ref = {}
+    return sorted(k for k in set(cur) | set(ref) if cur.get(k) != ref.get(k)), cur
+
+
+def case_key(prefix, case):
+    return prefix + ":" + hashlib.md5(json.dumps(case, sort_keys=True).encode()).hexdigest()[:16]
+
+
+def split_equal(recs):
+    """Append-split group: every file must read like the single-session file 0."""
+    ref = recs[0]
+    for i, r in enumerate(recs[1:], 1):
+        for k in ("index", "nrows", "thrown", "outcomes"):
+            if r.get(k) != ref.get(k):
+                return "the file written in %d sessions differs from the single-session file in %s" % (i, k)
+        if r.get("events") != ref.get("events"):
+            return "the events read from the file written in several sessions (split %d) differ from the single-session file" % i
+        if r["counters"][-1] != ref["counters"][-1]:
+            return "writer counters after the last session %s differ from the single-session run %s" % (r["counters"][-1], ref["counters"][-1])
+    return ""
+
+
+def judge(case, impl, prop):
+    """Property-level verdicts (independent of the Coq model) for one case: list of strings."""
+    out = []
+    if prop == "C11":
+        for fc, rec in zip(case["files"], impl["files"]):
+            v = oracle_c11(fc, rec)
+            if v:
+                out.append(v)
+        for q, g in zip(case.get("queries", []), impl["queries"]):
+            if q[0] == "len":
+                v = oracle_query(q, g, impl["files"], case["files"])
+                if v:
+                    out.append(v)
+    else:
+        for q, g in zip(case.get("queries", []), impl["queries"]):
+            v = oracle_query(q, g, impl["files"], case["files"])
+            if v:
+                out.append(v)
+        if case.get("split_group") and all(r["ctor"] is None for r in impl["files"]) and records_particles(case["files"][0]["opts"]):
+            v = split_equal(impl["files"])
+            if v:
+                out.append(v)
+    return out
+
+
+def shrink(case, fails, budget=40):
+    """Greedy reduction of a failing case: drop queries, files, adds while `fails(case)` holds."""
+    import copy
+    best = copy.deepcopy(case)
+    used = [0]
+
+    def attempt(c):
+        if used[0] >= budget:
+            return False
+        used[0] += 1
+        try:
+            return bool(fails(c))
+        except Exception:
+            return False
+    # queries: keep one failing query if possible
+    qs = best.get("queries", [])
+    if len(qs) > 1:
+        for q in list(qs):
+            c = copy.deepcopy(best)
+            c["queries"] = [q]
+            if attempt(c):
+                best = c
+                break
+    changed = True
+    while changed and used[0] < budget:
+        changed = False
+        for fi in range(len(best["files"])):
+            for si in range(len(best["files"][fi]["sessions"])):
+                for ai in reversed(range(len(best["files"][fi]["sessions"][si]))):
+                    c = copy.deepcopy(best)
+                    del c["files"][fi]["sessions"][si][ai]
+                    if attempt(c):
+                        best = c
+                        changed = True
+    return best
+
+
+def run_batch(ctx, cases, prop, stats, query_gen=None, with_model=True, label=""):
+    """Run implementation (+ model) on the cases, compare, judge.  Returns the list of
+    (case, kind, message) problems, kind in {'property', 'corr'}."""
+    problems = []
+    impls = []
+    for i, case in enumerate(cases):
+        impl = run_impl(case, ctx.scratch, tag="%s%d" % (label, i), query_gen=query_gen)
+        impls.append(impl)
+        _stats(stats, case, impl)
+    outs = None
+    if with_model:
+        try:
+            outs = eval_models(ctx, cases)
+        except RuntimeError as e:
+            stats["model_eval_error"] = str(e)[-800:]
+    for i, (case, impl) in enumerate(zip(cases, impls)):
+        nontrivial = any(r["ctor"] is None and "ok" in r["outcomes"] for r in impl["files"])
+        ctx.case(key=case_key(prop, case), nontrivial=nontrivial,
+                 sample={"opts": case["files"][0]["opts"], "det": case["files"][0]["det"],
+                         "outcomes": impl["files"][0]["outcomes"][:12], "n_queries": len(case.get("queries", []))})
+        for v in judge(case, impl, prop):
+            problems.append((case, "property", v))
+            break
+        if outs is not None:
+            d = compare(case, impl, outs[i])
+            if d:
+                problems.append((case, "corr", d))
+    return problems
+
+
+def _stats(stats, case, impl):
+    for fc, rec in zip(case["files"], impl["files"]):
+        stats["files"] = stats.get("files", 0) + 1
+        if rec["ctor"] is not None:
+            stats["ctor_rejected"] = stats.get("ctor_rejected", 0) + 1
+            continue
+        o = fc["opts"]
+        bits = sum(1 << i for i, k in enumerate(OKEYS) if o["write_" + k])
+        stats.setdefault("write_option_combos", set()).add(bits)
+        stats.setdefault("require_trigger_forms", set()).add(json.dumps(o["require_trigger"]))
+        stats.setdefault("detector_sizes", set()).add(fc["det"])
+        stats["sessions_max"] = max(stats.get("sessions_max", 0), len(fc["sessions"]))
+        stats["adds_max"] = max(stats.get("adds_max", 0), len(rec["outcomes"]))
+        stats["adds"] = stats.get("adds", 0) + len(rec["outcomes"])
+        for a, oc in zip(all_adds(fc), rec["outcomes"]):
+            stats.setdefault("outcomes", {})
+            stats["outcomes"][oc] = stats["outcomes"].get(oc, 0) + 1
+            kind = ("fault:" + a["fault"]) if a.get("fault") else ("pols:" + (a["pols"] if isinstance(a["pols"], str) else a["pols"][0])) if a.get("pols", "ok") != "ok" else \
+                ("trig:" + ("none" if a["trig"] is None else "bad" if a["trig"] == "bad" else "bool" if isinstance(a["trig"], bool) else
+                            ("dict-noglobal" if a["trig"].get("g") is None else "dict-perwave" if any(isinstance(v, list) for _, v in a["trig"].get("x", [])) else "dict")))
+            stats.setdefault("add_kinds", {})
+            stats["add_kinds"][kind] = stats["add_kinds"].get(kind, 0) + 1
+        if rec["outcomes"] and rec["outcomes"][-1] != "ok":
+            stats["files_ending_with_rejected_add"] = stats.get("files_ending_with_rejected_add", 0) + 1
+    for q in case.get("queries", []):
+        stats.setdefault("queries", {})
+        stats["queries"][q[0]] = stats["queries"].get(q[0], 0) + 1
+
+
+def finish_stats(ctx, stats):
+    out = {}
+    for k, v in stats.items():
+        out[k] = sorted(v, key=str) if isinstance(v, set) else v
+    if "write_option_combos" in out:
+        out["write_option_combos"] = "%d of the 48 valid combinations" % len(out["write_option_combos"])
+    ctx.extra["input_distribution"] = out
+
+
+def report(ctx, prop, problems, fails_property, fails_corr):
+    """Turn problems into obligations / failures (with shrinking)."""
+    corr = [p for p in problems if p[1] == "corr"]
+    propv = [p for p in problems if p[1] == "property"]
+    ctx.oblige("corr:IOModel-vs-pyrex", not corr and "model_eval_error" not in ctx.extra.get("input_distribution", {}),
+               "; ".join(p[2][:300] for p in corr[:3]) or ctx.extra.get("input_distribution", {}).get("model_eval_error", ""))
+    seen = 0
+    for case, _, msg in propv[:3]:
+        small = shrink(case, fails_property)
+        vs = fails_property(small) or [msg]
+        ctx.fail(case_key(prop.lower(), small), vs[0], {"kind": "case", "prop": prop, "case": small, "what": vs[0]}, witness=True)
+        seen += 1
+    if corr and not propv:
+        case, _, msg = corr[0]
+        small = shrink(case, fails_corr, budget=12) if fails_corr else case
+        ctx.extra["corr_counterexample"] = {"case": small, "difference": msg}
+        ctx.fail(case_key(prop.lower() + "-corr", small), "model and implementation disagree: " + msg[:400],
+                 {"kind": "case", "prop": prop, "case": small, "what": "model/implementation disagreement: " + msg}, witness=False)
+
+
+def replay_case(ctx, obj, prop):
+    case = obj["case"]
+    impl = run_impl(case, ctx.scratch, tag="replay")
+    print("implementation:")
+    for i, r in enumerate(impl["files"]):
+        print("  file %d: ctor=%s outcomes=%s" % (i, r["ctor"], r["outcomes"]))
+        if r["ctor"] is None:
+            print("    index=%s nrows=%s thrown=%s" % (r["index"], r["nrows"], r["thrown"]))
+            print("    events=%s" % json.dumps(r["events"])[:1500])
+    for q, g in zip(case.get("queries", []), impl["queries"]):
+        print("  query %s -> %s" % (q, json.dumps(g)[:300]))
+    verdicts = judge(case, impl, prop)
+    try:
+        out = eval_models(ctx, [case])[0]
+        print("model: " + out[:3000])
+        d = compare(case, impl, out)
+        print("model vs implementation: " + (d or "agree"))
+    except Exception as e:
+        d = "model not evaluated: %s" % str(e)[-300:]
+        print(d)
+    for v in verdicts:
+        print("PROPERTY FAILS: " + v)
+    if not verdicts:
+        print("property holds on this input")
+    return 1 if (verdicts or d) else 0
